@@ -1031,6 +1031,9 @@ def rule_r10(prog, res):
     from ..report import Result
     res.share('R10', 'fault serialisation cannot raise on plain fault codes '
               '(C09-R13)', 'C09', c09.rule_r13, prog, Result)
+    from . import c13
+    res.share('R10', 'user code run by the transport is funnelled into the '
+              'exception events (C13-R11)', 'C13', c13.rule_r11, prog, Result)
 
 
 def run(prog, res, tier):
